@@ -88,21 +88,22 @@ Definition need_update (fs : lfs) (p : string) (size : option N) (date : option 
 
 (* one non-retry response, classified as the code's branches do *)
 Inductive verdict :=
-| VBreak                      (* leave the while loop: next path *)
+| VBreak (definite_404 : bool)  (* leave the while loop: next path; a definite 404 of an optional
+                                  file supersedes the earlier transient errors of this path *)
 | VRetry (err : bool) (fs : lfs)  (* consume one try *)
 | VDone (unmod : bool) (sz : N) (fs : lfs).
 
 Definition handle (f : dfile) (v : variant) (p : string) (fs : lfs) (b : body) : verdict :=
   match b with
   | BMissing =>
-      if ignore_errors f || ignore_missing f then VBreak else VRetry false fs
+      if ignore_errors f || ignore_missing f then VBreak true else VRetry false fs
   | BError =>
-      if ignore_errors f then VBreak else VRetry true fs
+      if ignore_errors f then VBreak false else VRetry true fs
   | BOk ann date delivered aborts =>
       let ann' := positive_opt ann in
       if N.ltb 0 (vsize v) &&
          match ann' with Some a => negb (N.eqb a (vsize v)) | None => false end
-      then (if ignore_errors f then VBreak else VRetry true fs)
+      then (if ignore_errors f then VBreak false else VRetry true fs)
       else
         match ann' with
         | Some a =>
@@ -130,7 +131,9 @@ Definition handle (f : dfile) (v : variant) (p : string) (fs : lfs) (b : body) :
         end
   end.
 
-(* the while loop for one path: [n] = ordinal of the next non-retry request *)
+(* the while loop for one path: [n] = ordinal of the next non-retry request;
+   [err] is the error flag accumulated for THIS path (the caller ors it into the
+   file-wide flag) *)
 Inductive path_res :=
 | PDone (unmod : bool) (sz : N) (fs : lfs) (nreq : nat) (err : bool)
 | PNext (fs : lfs) (nreq : nat) (err : bool).   (* tries exhausted or break *)
@@ -143,7 +146,7 @@ Fixpoint try_path (f : dfile) (v : variant) (p : string) (s : pscript)
       let r := nth_resp s n in
       let nreq' := nreq + pre_retries r + 1 in
       match handle f v p fs (rbody r) with
-      | VBreak => PNext fs nreq' err
+      | VBreak definite => PNext fs nreq' (if definite then false else err)
       | VRetry e fs' => try_path f v p s t (S n) fs' nreq' (err || e)
       | VDone um sz fs' => PDone um sz fs' nreq' err
       end
@@ -158,9 +161,9 @@ Fixpoint try_paths (f : dfile) (u : upstream) (v : variant) (ps : list string) (
   match ps with
   | [] => VRNext fs reqs err
   | p :: r =>
-      match try_path f v p (script_of u p) max_tries 0 fs 0 err with
-      | PDone um sz fs' k e => VRDone um sz pi fs' (reqs ++ [(p, k)]) e
-      | PNext fs' k e => try_paths f u v r (S pi) fs' (reqs ++ [(p, k)]) e
+      match try_path f v p (script_of u p) max_tries 0 fs 0 false with
+      | PDone um sz fs' k e => VRDone um sz pi fs' (reqs ++ [(p, k)]) (err || e)
+      | PNext fs' k e => try_paths f u v r (S pi) fs' (reqs ++ [(p, k)]) (err || e)
       end
   end.
 
